@@ -1334,6 +1334,10 @@ package url
 //@   ensures err == nil ==> number >= 0   [C07]
 //@   ensures (specNumSyntax(input) && specNumBody(input) != "" && !specParseIntFits(specNumBody(input), specNumRadix(input))) ==> errIsRange(err)   [C07]
 //@   ensures err == nil ==> validationError == (specNumStart(input) > 0)   [C07]
+//@   loop 1 modifies nothing
+//@   loop 1 invariant 0 <= i && i <= len(input) && (R == 8 || R == 10 || R == 16) && len(input) >= 1 && input[0] != '+' && input[0] != '-'
+//@   loop 1 invariant forall k int :: (0 <= k && k < i) ==> specDigitVal(input[k]) < R
+//@   loop 1 decreases len(input) - i
 
 //@ func (*parser).parseIPv4
 //@   requires p != nil && u != nil
